@@ -50,6 +50,26 @@ pub fn run(toks: &[&str], out: &mut String) {
                 None => out.push_str(&format!("None{}", if changed.is_empty() { String::new() } else { format!(" W{}", changed.join("+")) })),
             }
         }
+        // wnew LEN SHAPE IDX;IDX;... : Array::new on LEN ramp values and a shape whose axis lengths may be anywhere in usize
+        // (overflowing products, zero-length axes beside huge ones), then get at each index: the position it addresses
+        "wnew" => {
+            let len: usize = toks[1].parse().unwrap();
+            let shape = parse_list(toks[2]);
+            match Array::new((0..len).map(|x| x as f64).collect::<Vec<_>>(), shape) {
+                Err(_) => out.push_str("Err"),
+                Ok(a) => {
+                    out.push_str("Ok");
+                    if toks.len() > 3 {
+                        for t in toks[3].split(';') {
+                            match a.get(&parse_list(t)) {
+                                Some(v) => out.push_str(&format!(" S{}", int(*v))),
+                                None => out.push_str(" N"),
+                            }
+                        }
+                    }
+                }
+            }
+        }
         // getaxis SHAPE a i : only whether a view exists
         "getaxis" => {
             let a = ramp(&parse_list(toks[1]));
